@@ -176,7 +176,15 @@ def from_nested(data, dtype=None):
         return new_arr((), lambda idx: v, dtype or scalar_dtype(v))
     if isinstance(data, SeqVal):
         r = data.reader()
-        return new_arr((data.length,), lambda idx: r(idx[0]), dtype or "float")
+        if dtype is None:
+            # element type of a symbolic-length python list: that of its element at an arbitrary position
+            probe = r(sv.fresh_int("sq"))
+            if not sv.is_scalar(probe):
+                raise EngineError("np.array of a symbolic-length list of non-scalars")
+            dtype = scalar_dtype(probe)
+            if dtype == "object":
+                raise EngineError("np.array of a symbolic-length list of objects")
+        return new_arr((data.length,), lambda idx: r(idx[0]), dtype)
     if isinstance(data, (list, tuple)):
         items = [from_nested(x) if not sv.is_scalar(x) else x for x in data]
         if all(sv.is_scalar(x) for x in items):
@@ -345,6 +353,11 @@ def _ew_masked(f, operands, dtype=None):
 
 def ew(f, *operands, dtype=None):
     if any(isinstance(o, Masked) for o in operands):
+        if any(isinstance(o, (Arr, list, tuple)) and as_operand(o)[0] != () for o in operands):
+            # a selection combined with an ordinary array: the selection is materialised (rows = selected positions in
+            # increasing order, relational contract of relops.select) and numpy broadcasting applies as usual
+            from .relops import masked_to_arr
+            return ew(f, *[masked_to_arr(o) if isinstance(o, Masked) else o for o in operands], dtype=dtype)
         return _ew_masked(f, operands, dtype)
     ops = [as_operand(o) for o in operands]
     if all(o[0] == () for o in ops) and not any(isinstance(o, Arr) for o in operands):
